@@ -168,9 +168,15 @@ class Index:
         self.enums["@methods"] = methods
         # private attributes are identified by role and renamed to the names the rules use (see core/canon.py)
         from . import canon
+        self.matches = canon.desugar_matches(self)
+        self.walrus = canon.desugar_walrus(self)
+        self.positional = canon.positional_calls(self)
+        self.aliased = canon.attach_aliased_methods(self)
         self.renamed = canon.apply(self, canon.discover(self))
         self.renamed.update({k: "relocated helper" for k in canon.relocate_helpers(self)})
         # new private procedures are opened at their call sites (core/canon.py: inline_procedures)
+        self.records = canon.tuples_for_named_records(self)
+        self.pure_opened = canon.open_pure_functions(self)
         self.propagated = canon.propagate_constants(self)
         self.inlined = canon.inline_procedures(self)
         # helpers of which no call is left anywhere: every use was opened in place
@@ -225,6 +231,30 @@ class Index:
                 cands = pref
         if len(cands) == 1:
             return cands[0]
+        if not cands and "." in qual:
+            # a nested class moved out of its owner and attached again by a class-level alias (`_Shadow = _Shadow` with the
+            # class imported from another module): follow the alias
+            parts = qual.split(".")
+            outers = [c for c in self.all_classes() if c.qual == parts[0] and (not hint or c.module.rel.startswith(hint))] or \
+                     [c for c in self.all_classes() if c.qual == parts[0]]
+            if len(outers) == 1:
+                cur = outers[0]
+                for part in parts[1:]:
+                    nxt = cur.nested.get(part)
+                    if nxt is None:
+                        av = cur.class_attrs.get(part)
+                        if isinstance(av, ast.Name):
+                            if av.id in cur.module.classes:
+                                nxt = cur.module.classes[av.id]
+                            elif av.id in cur.module.imports:
+                                r = self._resolve_import(cur.module.imports[av.id])
+                                nxt = r if isinstance(r, ClassInfo) else None
+                    cur = nxt
+                    if cur is None:
+                        break
+                if cur is not None:
+                    self.relocated[spec] = cur.site
+                    return cur
         if not cands and "." in qual:
             # a nested class hoisted to module level (Outer.Inner.Chunk -> _InnerChunk): the one class of the module where
             # the outer class lives -- or lived -- whose name ends with the nested name
@@ -372,6 +402,15 @@ class Index:
                         if name in b.nested:
                             nxt = b.nested[name]
                             break
+                if nxt is None:
+                    # a class-level alias of a class defined elsewhere:  _Shadow = _Shadow  (imported)
+                    av = cur.class_attrs.get(name)
+                    if isinstance(av, ast.Name):
+                        if av.id in cur.module.classes:
+                            nxt = cur.module.classes[av.id]
+                        elif av.id in cur.module.imports:
+                            r = self._resolve_import(cur.module.imports[av.id])
+                            nxt = r if isinstance(r, ClassInfo) else None
                 cur = nxt
             elif isinstance(cur, tuple) and cur[0] == 'module':
                 m = self.modules[cur[1]]
@@ -432,12 +471,27 @@ class Index:
         out = {}
         init = cls.method("__init__")
 
+        # locals of the constructor that are bound exactly once (x = Signature(...) / x: Signature = Signature(...)): a member
+        # declared as In(x) has that shape
+        local_defs = {}
+        if init is not None:
+            counts = {}
+            for n in ast.walk(init.node):
+                tgt = n.targets[0] if isinstance(n, ast.Assign) and len(n.targets) == 1 else (n.target if isinstance(n, ast.AnnAssign) and n.value is not None else None)
+                if isinstance(tgt, ast.Name):
+                    counts[tgt.id] = counts.get(tgt.id, 0) + 1
+                    local_defs[tgt.id] = n.value
+            local_defs = {k: v for k, v in local_defs.items() if counts.get(k) == 1 and k not in init.params}
+
         def flow_of(v):
             if isinstance(v, ast.Call) and isinstance(v.func, ast.Attribute) and v.func.attr == "array":
                 r = flow_of(v.func.value)
                 return None if r is None else (r[0], r[1], True)
             if isinstance(v, ast.Call) and isinstance(v.func, ast.Name) and v.func.id in ("In", "Out") and v.args:
-                return (v.func.id, ir.from_ast(v.args[0], {}), False)
+                a0 = v.args[0]
+                if isinstance(a0, ast.Name) and a0.id in local_defs and isinstance(local_defs[a0.id], ast.Call):
+                    a0 = local_defs[a0.id]
+                return (v.func.id, ir.from_ast(a0, {}), False)
             return None
 
         literals = {}
